@@ -739,11 +739,14 @@ impl Decoder for RawResponseMessageDecoder {
             return Ok(None);
         }
         src.advance(HEADER_INIT_LEN);
+        // The whole frame is removed from the buffer before any of it is validated so that a bad
+        // frame cannot affect the interpretation of the one that follows it.
         let node_bytes = src.split_to(node_len).freeze();
+        let lane_bytes = src.split_to(lane_len).freeze();
+        let body = src.split_to(body_len).freeze();
+
         let node = BytesStr::try_from(node_bytes)
             .map_err(|_| std::io::Error::from(std::io::ErrorKind::InvalidData))?;
-
-        let lane_bytes = src.split_to(lane_len).freeze();
         let lane = BytesStr::try_from(lane_bytes)
             .map_err(|_| std::io::Error::from(std::io::ErrorKind::InvalidData))?;
 
@@ -753,17 +756,11 @@ impl Decoder for RawResponseMessageDecoder {
             LINKED => Ok(Some(BytesResponseMessage::linked(target, path))),
             SYNCED => Ok(Some(BytesResponseMessage::synced(target, path))),
             UNLINKED => {
-                let body = if body_len == 0 {
-                    None
-                } else {
-                    Some(src.split_to(body_len).freeze())
-                };
+                let body = if body.is_empty() { None } else { Some(body) };
                 Ok(Some(BytesResponseMessage::unlinked(target, path, body)))
             }
-            _ => {
-                let body = src.split_to(body_len).freeze();
-                Ok(Some(BytesResponseMessage::event(target, path, body)))
-            }
+            EVENT => Ok(Some(BytesResponseMessage::event(target, path, body))),
+            _ => Err(std::io::Error::from(std::io::ErrorKind::InvalidData)),
         }
     }
 }
@@ -790,11 +787,14 @@ impl Decoder for RawRequestMessageDecoder {
             return Ok(None);
         }
         src.advance(HEADER_INIT_LEN);
+        // The whole frame is removed from the buffer before any of it is validated so that a bad
+        // frame cannot affect the interpretation of the one that follows it.
         let node_bytes = src.split_to(node_len).freeze();
+        let lane_bytes = src.split_to(lane_len).freeze();
+        let body = src.split_to(body_len).freeze();
+
         let node = BytesStr::try_from(node_bytes)
             .map_err(|_| std::io::Error::from(std::io::ErrorKind::InvalidData))?;
-
-        let lane_bytes = src.split_to(lane_len).freeze();
         let lane = BytesStr::try_from(lane_bytes)
             .map_err(|_| std::io::Error::from(std::io::ErrorKind::InvalidData))?;
 
@@ -804,10 +804,8 @@ impl Decoder for RawRequestMessageDecoder {
             LINK => Ok(Some(RequestMessage::link(origin, path))),
             SYNC => Ok(Some(RequestMessage::sync(origin, path))),
             UNLINK => Ok(Some(RequestMessage::unlink(origin, path))),
-            _ => {
-                let body = src.split_to(body_len).freeze();
-                Ok(Some(RequestMessage::command(origin, path, body)))
-            }
+            COMMAND => Ok(Some(RequestMessage::command(origin, path, body))),
+            _ => Err(std::io::Error::from(std::io::ErrorKind::InvalidData)),
         }
     }
 }
